@@ -10,6 +10,7 @@ pub mod c05;
 pub mod c07;
 pub mod c08;
 pub mod c11;
+pub mod histories;
 
 pub type Ctr = BTreeMap<String, u64>;
 
@@ -74,7 +75,7 @@ pub trait Prop: Sync {
 }
 
 pub fn all() -> Vec<Box<dyn Prop>> {
-    vec![Box::new(c05::C05), Box::new(c07::C07), Box::new(c08::C08), Box::new(c11::C11)]
+    vec![Box::new(c05::C05), Box::new(c07::C07), Box::new(c08::C08), Box::new(c11::C11), Box::new(histories::C01), Box::new(histories::C03), Box::new(histories::C06), Box::new(histories::C09)]
 }
 
 pub fn by_id(id: &str) -> Option<Box<dyn Prop>> {
